@@ -28,6 +28,7 @@ Inductive err :=
 | E_assert (span : str) | E_unwrap_nil (span : str) | E_div_zero | E_invalid_op | E_not_bool
 | E_load_before_store (n : str) | E_goto_range | E_stack_shape (o : N) | E_bad_arg (o : N)
 | E_not_callable | E_no_function (n : str) | E_cb (n : str) | E_unsupported (o : N)
+| E_arity                                                   (* instrumentation only: see run_fn_gen *)
 | E_panic (o : N).                                          (* a Rust panic, not an anyhow error *)
 
 (* ---------------------------------------------------------------- helpers *)
@@ -544,7 +545,10 @@ Definition goto (len : nat) (ip : nat) (off : Z) : option nat :=
   let t := Z.of_nat ip + off in
   if (t <? 0) || (Z.of_nat len <=? t) then None else Some (Z.to_nat t).
 
-Fixpoint run_fn (fuel : nat) (p : program) (name : str) (argv : list value)
+(* `rc caller ip returned_a_value` is an instrumentation hook consulted when a callee returns:
+   the interpreter is `run_fn` = `run_fn_gen` with the hook that always says yes.  The hook lets the
+   operand-shape theorem of C09 say "provided every call delivers the arity its site expects". *)
+Fixpoint run_fn_gen (rc : str -> nat -> bool -> bool) (fuel : nat) (p : program) (name : str) (argv : list value)
          (cb : option (list (str * N))) (g : gstate) : rres :=
   match fuel with O => RFuel | S fuel0 =>
   match assoc name p with
@@ -579,8 +583,10 @@ Fixpoint run_fn (fuel : nat) (p : program) (name : str) (argv : list value)
            end
          | SRet rv a g => RDone rv (with_frames g (drop_to_function (frames g)))
          | SCall dest cb' argv' a g =>
-           match run_fn fuel0 p dest argv' cb' g with
-           | RDone rv g' => loop fuel (set_ip (match rv with Some v => set_ops a (a_ops a ++ [v]) | None => a end) (S (a_ip a))) g'
+           match run_fn_gen rc fuel0 p dest argv' cb' g with
+           | RDone rv g' =>
+             if negb (rc name (a_ip a) (match rv with Some _ => true | None => false end)) then RFail E_arity g' else
+             loop fuel (set_ip (match rv with Some v => set_ops a (a_ops a ++ [v]) | None => a end) (S (a_ip a))) g'
            | RFail e g' => RFail e g'
            | RFuel => RFuel end
          end
@@ -588,6 +594,8 @@ Fixpoint run_fn (fuel : nat) (p : program) (name : str) (argv : list value)
       {| a_fn := name; a_ip := 0; a_ops := []; a_args := argv; a_cb := cb; a_ss := 0 |}
       (push_frame g (LFun name))
   end end.
+
+Definition run_fn := run_fn_gen (fun _ _ _ => true).
 
 (* Program::execute : run <entry>#__module__; afterwards the call stack must be empty *)
 Inductive outcome := Done | StackMismatch (n : N) | RuntimeErr (e : err) (stack : list flabel) | OutOfFuel.
